@@ -3,6 +3,7 @@
 # Not part of any registered check (checks always analyse /repo).
 set -u
 MUT=${MUT:-/tmp/mut}
+trap "git -C $MUT checkout -q -- . 2>/dev/null" EXIT PIPE
 [ -d "$MUT" ] || git -C /repo worktree add --detach "$MUT" HEAD >/dev/null 2>&1
 ID=$1; FILE=$2; OLD=$3; NEW=$4
 python3 - "$MUT/$FILE" "$OLD" "$NEW" <<'PY' || exit 3
